@@ -11,6 +11,7 @@
 mod ops;
 mod ops2;
 mod ops3;
+mod ops4;
 mod conc;
 mod place;
 mod util;
